@@ -1452,6 +1452,7 @@ static inline void verif_memmove(uint8_t* d, const uint8_t* s, uint64_t n) { if 
 static inline void verif_memset(uint8_t* d, uint8_t c, uint64_t n) { if (n) { VERIF_CHK(d, n); } memset(d, c, n); }
 void _ZSt20__throw_length_errorPKc(uint8_t* m) { VERIF_UB(0, "UB: abnormal exit: throws std::length_error"); __CPROVER_assume(0); }
 void _ZSt20__throw_out_of_rangePKc(uint8_t* m) { VERIF_UB(0, "UB: abnormal exit: throws std::out_of_range"); __CPROVER_assume(0); }
+void _ZSt24__throw_out_of_range_fmtPKcz(uint8_t* m, ...) { VERIF_UB(0, "UB: abnormal exit: throws std::out_of_range"); __CPROVER_assume(0); }
 void _ZSt19__throw_logic_errorPKc(uint8_t* m) { VERIF_UB(0, "UB: abnormal exit: throws std::logic_error"); __CPROVER_assume(0); }
 void _ZSt17__throw_bad_allocv(void) { VERIF_UB(0, "UB: abnormal exit: throws std::bad_alloc"); __CPROVER_assume(0); }
 void _ZSt28__throw_bad_array_new_lengthv(void) { VERIF_UB(0, "UB: abnormal exit: throws bad_array_new_length"); __CPROVER_assume(0); }
